@@ -6,6 +6,7 @@
 
 #![allow(dead_code, unused_imports, unused_macros)]
 mod util;
+mod exact;
 mod c01;
 mod c02;
 mod c03;
